@@ -187,6 +187,59 @@ def shift_width_ok(P, inst, bb):
     return width is not None and 0 <= sh < width
 
 
+def unit_counter_ok(P, inst, bb):
+    """Overflow(Add) of `c + 1` where c is a 64-bit local counter of this function: it is initialised by constants, its only other
+    assignments store back the result of `c + 1`, and no mutable reference to it is taken.  Overflow would need 2^64 increments."""
+    t = inst["blocks"][bb]["t"]
+    if t["k"] != "assert" or t.get("assert") != "Overflow(Add)":
+        return False
+    a, b = t.get("a") or {}, t.get("b") or {}
+
+    def is_one(o):
+        return "const" in o and o["const"].get("k") == "int" and int(o["const"]["v"]) == 1
+
+    def plain_local(o):
+        pl = o.get("copy") or o.get("move")
+        return pl["l"] if pl and not pl.get("p") else None
+
+    c = plain_local(a) if is_one(b) else (plain_local(b) if is_one(a) else None)
+    if c is None or c <= inst.get("arg_count", 0):
+        return False  # arguments can start anywhere
+    ty = P.types[inst["locals"][c]]
+    if ty["k"] != "int" or ty["bits"] < 64:
+        return False
+    sums = set()  # temporaries holding AddWithOverflow(c, 1)
+    for blk in inst["blocks"]:
+        for st in blk["s"]:
+            if st.get("k") == "assign" and not st["p"].get("p"):
+                r = st["r"]
+                if r["k"] == "bin" and r.get("op") == "AddWithOverflow":
+                    x, y = r["a"], r["b"]
+                    if (plain_local(x) == c and is_one(y)) or (plain_local(y) == c and is_one(x)):
+                        sums.add(st["p"]["l"])
+    for blk in inst["blocks"]:
+        for st in blk["s"]:
+            if st.get("k") != "assign":
+                continue
+            r = st["r"]
+            if r["k"] in ("ref", "rawptr") and r["p"]["l"] == c and r.get("mut"):
+                return False
+            if st["p"]["l"] == c:
+                if st["p"].get("p"):
+                    return False
+                if r["k"] == "use" and "const" in r["a"] and r["a"]["const"].get("k") == "int":
+                    continue
+                if r["k"] == "use":
+                    pl = r["a"].get("move") or r["a"].get("copy")
+                    if pl and pl["l"] in sums and [e.get("f") for e in pl.get("p", [])] == [0]:
+                        continue
+                return False
+        tt = blk["t"]
+        if tt["k"] in ("call", "tailcall") and tt.get("dest", {}).get("l") == c:
+            return False
+    return True
+
+
 def panic_rule(ctx, res, prod, roots, rule):
     P = ctx.P
     ids = [P.roots[r] for r in roots if r in P.roots]
@@ -207,6 +260,9 @@ def panic_rule(ctx, res, prod, roots, rule):
         key = "%s/%s" % (rule.split(".")[0] + "/panic", k)
         if shift_width_ok(P, inst, src["bb"]):
             res.ob(True, rule, key, "", sample={"source": k, "discharged_by": "constant shift amount smaller than the operand width", "site": site})
+            continue
+        if unit_counter_ok(P, inst, src["bb"]):
+            res.ob(True, rule, key, "", sample={"source": k, "discharged_by": "unit increments of a local 64-bit counter that starts at a constant: overflow needs 2^64 iterations", "site": site})
             continue
         if ck in covered:
             # executed by the abstract interpreter in the parser model: any failing path is a product finding
